@@ -1,7 +1,8 @@
 (* C01 — binary write/read round trip and wire-format conformance. Property theorems only. *)
-From Coq Require Import List NArith ZArith.
+From Coq Require Import List NArith ZArith Lia.
 From YV Require Import Base.Wire Model.CodedCpp Model.Binary.
 From YV Require Import Proofs.BinaryProofs Proofs.ProtocolProofs Proofs.CodedCppOut Proofs.CodedCppIn Proofs.Truncation.
+From YV Require Import Model.CodedPy Proofs.CodedPyIn Proofs.CodedPyOut Proofs.CodedPyRoundtrip.
 Import ListNotations.
 
 (* every type constructor, every well-typed value, any following bytes *)
@@ -29,6 +30,37 @@ Theorem C01_cpp_reader_complete : forall bufsize ops data vs, (0 < bufsize)%nat 
   rrun bufsize (cin_init data) (ops ++ [RVerify]) = map Ok vs ++ [Ok VUnit].
 Proof. exact cpp_complete. Qed.
 Print Assumptions C01_cpp_reader_complete.
+
+(* the buffered Python writer (_binary.py CodedOutputStream) hands the underlying stream exactly the bytes its operations
+   denote, for every buffer size >= 10, and the operations generated code uses never raise *)
+Theorem C01_py_writer_refines : forall bufsize ops, (10 <= bufsize)%nat -> Forall (pwop_ok bufsize) ops ->
+  exists chunks, pwfinish bufsize ops = PWOk chunks /\ concat chunks = concat (map pwbytes ops).
+Proof. exact py_writer_refines. Qed.
+Print Assumptions C01_py_writer_refines.
+
+(* for ANY buffer size and ANY script (unguarded byte stores included): no exception => nothing lost, nothing reordered *)
+Theorem C01_py_writer_no_loss : forall bufsize ops chunks, pwfinish bufsize ops = PWOk chunks ->
+  concat chunks = concat (map pwbytes ops).
+Proof. exact py_writer_no_loss. Qed.
+Print Assumptions C01_py_writer_no_loss.
+
+(* Python coded streams end to end: written with any buffer size >= 10, read back with any buffer size > 0 *)
+Theorem C01_py_stream_roundtrip : forall b1 b2 ops, (10 <= b1)%nat -> (0 < b2)%nat ->
+  Forall (pwop_ok b1) ops ->
+  Forall (fun op => match op with PWFixed k _ => (k <= b2)%nat | _ => True end) ops ->
+  exists chunks, pwfinish b1 ops = PWOk chunks /\
+                 prun b2 (pin_init (concat chunks)) (reads_of ops) = map PyOk (values_of ops).
+Proof. exact py_stream_roundtrip. Qed.
+Print Assumptions C01_py_stream_roundtrip.
+
+Example C01_py_hyp_sat :
+  Forall (pwop_ok 16) [PWByte 5; PWVar 300; PWFixed 4 1; PWBytes [9; 8; 7]; PWFlush; PWDirect [1; 2]] /\
+  pwfinish 16 [PWByte 5; PWVar 300; PWFixed 4 1; PWBytes [9; 8; 7]; PWFlush; PWDirect [1; 2]]
+  = PWOk [[5; 172; 2; 1; 0; 0; 0; 9; 8; 7]; [1; 2]].
+Proof.
+  split; [|vm_compute; reflexivity].
+  repeat (apply Forall_cons; [cbn; try exact I; try split; try lia; try reflexivity|]). apply Forall_nil.
+Qed.
 
 (* conformance with docs/reference/binary.md: identical except for 8-bit integers ... *)
 Theorem C01_doc_conformance_guarded : forall t, no_int8 t = true -> forall v, enc_doc t v = enc t v.
